@@ -16,23 +16,29 @@ def shapes(deep):
     def add(sql, tag):
         S.append((sql, tag))
     for neg in ('', 'NOT '):
-        add('SELECT a, b FROM t WHERE %sEXISTS (SELECT 1 FROM u WHERE u.a = t.a)' % neg, neg + 'exists-corr')
+        add('SELECT a, b FROM t WHERE %sEXISTS (SELECT 1 FROM u WHERE u.x = t.a)' % neg, neg + 'exists-corr')
         add('SELECT a, b FROM t WHERE %sEXISTS (SELECT 1 FROM u WHERE u.c > 1)' % neg, neg + 'exists-uncorr')
-        add('SELECT a, b FROM t WHERE %sEXISTS (SELECT 1 FROM u WHERE u.a = t.a AND u.c = t.b)' % neg, neg + 'exists-corr2')
-        add('SELECT a, b FROM t WHERE %sEXISTS (SELECT 1 FROM u WHERE u.a = t.a AND u.c > t.b)' % neg, neg + 'exists-corr-noneq')
-        add('SELECT a, b FROM t WHERE a %sIN (SELECT a FROM u)' % neg, neg + 'in-uncorr')
-        add('SELECT a, b FROM t WHERE b %sIN (SELECT c FROM u WHERE u.a = t.a)' % neg, neg + 'in-corr')
-        add('SELECT a, b FROM t WHERE a %sIN (SELECT a FROM u WHERE c IS NOT NULL)' % neg, neg + 'in-uncorr-filtered')
+        add('SELECT a, b FROM t WHERE %sEXISTS (SELECT 1 FROM u WHERE u.x = t.a AND u.c = t.b)' % neg, neg + 'exists-corr2')
+        add('SELECT a, b FROM t WHERE %sEXISTS (SELECT 1 FROM u WHERE u.x = t.a AND u.c > t.b)' % neg, neg + 'exists-corr-noneq')
+        add('SELECT a, b FROM t WHERE a %sIN (SELECT x FROM u)' % neg, neg + 'in-uncorr')
+        add('SELECT a, b FROM t WHERE b %sIN (SELECT c FROM u WHERE u.x = t.a)' % neg, neg + 'in-corr')
+        add('SELECT a, b FROM t WHERE a %sIN (SELECT x FROM u WHERE c IS NOT NULL)' % neg, neg + 'in-uncorr-filtered')
     for op in ('=', '<', '>='):
         for agg in ('MIN(c)', 'MAX(c)', 'COUNT(c)', 'COUNT(*)', 'SUM(c)'):
-            add('SELECT a, b FROM t WHERE b %s (SELECT %s FROM u WHERE u.a = t.a)' % (op, agg), 'scalar-corr-%s' % agg.split('(')[0])
+            add('SELECT a, b FROM t WHERE b %s (SELECT %s FROM u WHERE u.x = t.a)' % (op, agg), 'scalar-corr-%s' % agg.split('(')[0])
             if op == '=':
                 add('SELECT a, b FROM t WHERE b %s (SELECT %s FROM u)' % (op, agg), 'scalar-uncorr-%s' % agg.split('(')[0])
     for agg in ('MIN(c)', 'MAX(c)', 'COUNT(c)', 'COUNT(*)', 'SUM(c)'):
-        add('SELECT a, (SELECT %s FROM u WHERE u.a = t.a) AS s FROM t' % agg, 'scalar-select-corr-%s' % agg.split('(')[0])
+        add('SELECT a, (SELECT %s FROM u WHERE u.x = t.a) AS s FROM t' % agg, 'scalar-select-corr-%s' % agg.split('(')[0])
         add('SELECT a, (SELECT %s FROM u) AS s FROM t' % agg, 'scalar-select-uncorr-%s' % agg.split('(')[0])
+    # the inner table has a column with the SAME NAME as the outer correlation column
+    for neg in ('', 'NOT '):
+        add('SELECT a, b FROM t WHERE %sEXISTS (SELECT 1 FROM v WHERE v.a = t.a)' % neg, neg + 'samename-exists')
+        add('SELECT a, b FROM t WHERE b %sIN (SELECT c FROM v WHERE v.a = t.a)' % neg, neg + 'samename-in')
+    add('SELECT a, (SELECT MAX(c) FROM v WHERE v.a = t.a) AS s FROM t', 'samename-scalar-select')
+    add('SELECT a, b FROM t WHERE b = (SELECT MAX(c) FROM v WHERE v.a = t.a)', 'samename-scalar')
     if deep:
-        base = ['EXISTS (SELECT 1 FROM u WHERE u.a = t.a)', 'a IN (SELECT a FROM u)', 'b NOT IN (SELECT c FROM u)', 'b = (SELECT MAX(c) FROM u WHERE u.a = t.a)',
+        base = ['EXISTS (SELECT 1 FROM u WHERE u.x = t.a)', 'a IN (SELECT x FROM u)', 'b NOT IN (SELECT c FROM u)', 'b = (SELECT MAX(c) FROM u WHERE u.x = t.a)',
                 'NOT EXISTS (SELECT 1 FROM u WHERE u.c = t.b)']
         for x, y in itertools.permutations(base, 2):
             for op in ('AND', 'OR'):
@@ -57,16 +63,21 @@ def run(rep):
     units = []
     for (tr, ur) in pairs:
         db = {'tables': [table('t', [['a', 'int64'], ['b', 'int64']], [list(r) for r in tr]),
-                         table('u', [['a', 'int64'], ['c', 'int64']], [list(r) for r in ur])]}
+                         table('u', [['x', 'int64'], ['c', 'int64']], [list(r) for r in ur]),
+                         table('v', [['a', 'int64'], ['c', 'int64']], [list(r) for r in ur])]}
         st = []
         for sql, tag in sh:
-            st.append({'sql': sql, 'tag': tag, 'mode': 'prod', 'nontrivial': True})
-            st.append({'sql': sql, 'tag': tag + '|nodecorr', 'mode': 'rules', 'rules': NODECORR, 'nontrivial': True})
+            alts = None
+            if 'samename-in' in tag:
+                # known finding: inside an IN subquery the outer reference t.a is captured by the inner column of the same name
+                alts = {'in_subquery_outer_ref_captured_by_same_named_inner_column': sql.replace('v.a = t.a', 'v.a = v.a')}
+            st.append({'sql': sql, 'tag': tag, 'mode': 'prod', 'nontrivial': True, 'alts': alts})
+            st.append({'sql': sql, 'tag': tag + '|nodecorr', 'mode': 'rules', 'rules': NODECORR, 'nontrivial': True, 'alts': alts})
             if quick and 'scalar' in tag:
                 continue
-            st.append({'sql': sql, 'tag': tag + '|noopt', 'mode': 'noopt', 'nontrivial': True})
+            st.append({'sql': sql, 'tag': tag + '|noopt', 'mode': 'noopt', 'nontrivial': True, 'alts': alts})
         units.append({'db': db, 'stmts': st})
-    rep.rule = ('outer t(a,b) = all multisets of 1..%d rows, inner u(a,c) = all multisets of 0..%d rows over {NULL,1,2}^2; [NOT] EXISTS (correlated on 1-2 equalities, on an inequality, '
+    rep.rule = ('outer t(a,b) = all multisets of 1..%d rows, inner u(x,c) = all multisets of 0..%d rows over {NULL,1,2}^2; [NOT] EXISTS (correlated on 1-2 equalities, on an inequality, '
                 'uncorrelated), [NOT] IN (correlated / uncorrelated), scalar MIN/MAX/COUNT/SUM subqueries under =,<,>= in WHERE and in the SELECT list%s; three executions each: production '
                 'optimizer, production without FlattenDependentJoin/SubqueryDecorrelation (row-by-row executor), bound plan unoptimized; oracle SQLite 3.40' % (tmax, umax, '' if quick else ', pairs combined with AND/OR'))
     sqldiff.run(rep, units)
